@@ -1,0 +1,131 @@
+//! Read-only introspection of the solver's clause database for external
+//! verification harnesses. Only compiled with the `verif-hooks` feature; it
+//! never changes the behaviour of the solver.
+
+use super::{Clause, Solver};
+use crate::{
+    DependencyProvider, NameId, SolvableId,
+    internal::{arena::ArenaId, id::VariableId},
+    runtime::AsyncRuntime,
+    solver::variable_map::VariableOrigin,
+};
+
+/// What a SAT variable of the solver stands for.
+#[derive(Clone, Copy, Debug, PartialEq, Eq, Hash, PartialOrd, Ord)]
+pub enum VerifVar {
+    /// The root variable.
+    Root,
+    /// A variable that represents a solvable.
+    Solvable(SolvableId),
+    /// A helper variable of the at-most-one encoding of a package (with the
+    /// raw variable index to tell helpers of one package apart).
+    Helper(NameId, u32),
+}
+
+/// The kind of a clause in the clause database.
+#[derive(Clone, Copy, Debug, PartialEq, Eq, Hash)]
+pub enum VerifClauseKind {
+    /// `Clause::InstallRoot`
+    InstallRoot,
+    /// `Clause::Requires`
+    Requires,
+    /// `Clause::ForbidMultipleInstances`
+    ForbidMultiple,
+    /// `Clause::Constrains`
+    Constrains,
+    /// `Clause::Lock`
+    Lock,
+    /// `Clause::Learnt`
+    Learnt,
+    /// `Clause::Excluded`
+    Excluded,
+}
+
+/// A single clause as a plain list of literals.
+#[derive(Clone, Debug)]
+pub struct VerifClause {
+    /// The kind of the clause.
+    pub kind: VerifClauseKind,
+    /// The literals: the variable and the value that satisfies the literal.
+    pub literals: Vec<(VerifVar, bool)>,
+    /// For learnt clauses: indices (into [`VerifDump::clauses`]) of the clauses
+    /// the clause was derived from. Empty for all other clauses.
+    pub why: Vec<usize>,
+}
+
+/// A copy of the clause database and trail of the last call to `solve`.
+#[derive(Clone, Debug, Default)]
+pub struct VerifDump {
+    /// All clauses in allocation order.
+    pub clauses: Vec<VerifClause>,
+    /// The current trail: variable, assigned value and decision level.
+    pub trail: Vec<(VerifVar, bool, u32)>,
+}
+
+impl<D: DependencyProvider, RT: AsyncRuntime> Solver<D, RT> {
+    fn verif_var(&self, variable: VariableId) -> VerifVar {
+        match self.state.variable_map.origin(variable) {
+            VariableOrigin::Root => VerifVar::Root,
+            VariableOrigin::Solvable(s) => VerifVar::Solvable(s),
+            VariableOrigin::ForbidMultiple(n) => VerifVar::Helper(n, variable.to_usize() as u32),
+        }
+    }
+
+    /// Returns a copy of the clause database and trail as left behind by the
+    /// last call to [`Solver::solve`].
+    pub fn verif_dump(&self) -> VerifDump {
+        let state = &self.state;
+        let mut clauses = Vec::with_capacity(state.clauses.kinds.len());
+        for clause in &state.clauses.kinds {
+            let kind = match clause {
+                Clause::InstallRoot => VerifClauseKind::InstallRoot,
+                Clause::Requires(..) => VerifClauseKind::Requires,
+                Clause::ForbidMultipleInstances(..) => VerifClauseKind::ForbidMultiple,
+                Clause::Constrains(..) => VerifClauseKind::Constrains,
+                Clause::Lock(..) => VerifClauseKind::Lock,
+                Clause::Learnt(..) => VerifClauseKind::Learnt,
+                Clause::Excluded(..) => VerifClauseKind::Excluded,
+            };
+            let mut literals = Vec::new();
+            if let Clause::InstallRoot = clause {
+                literals.push((VerifVar::Root, true));
+            } else {
+                clause.visit_literals(
+                    &state.learnt_clauses,
+                    &state.requirement_to_sorted_candidates,
+                    |literal| {
+                        literals.push((
+                            self.verif_var(literal.variable()),
+                            literal.satisfying_value(),
+                        ));
+                    },
+                );
+            }
+            let why = match clause {
+                Clause::Learnt(id) => state
+                    .learnt_why
+                    .get(*id)
+                    .map(|why| why.iter().map(|c| c.to_usize()).collect())
+                    .unwrap_or_default(),
+                _ => Vec::new(),
+            };
+            clauses.push(VerifClause {
+                kind,
+                literals,
+                why,
+            });
+        }
+        let trail = state
+            .decision_tracker
+            .stack()
+            .map(|d| {
+                (
+                    self.verif_var(d.variable),
+                    d.value,
+                    state.decision_tracker.level(d.variable),
+                )
+            })
+            .collect();
+        VerifDump { clauses, trail }
+    }
+}
